@@ -75,6 +75,7 @@ pub fn replay(_sc: &Value) -> Value {
         return json!({"error": "the first setter never reached its initialisation window"});
     }
     // inside the window: a second set must be ignored, reads must say "not set"
+    let is_set_before = cadence_macros::is_global_default_set();
     let during_before = which_client(&seen);
     cadence_macros::set_global_default(cb);
     let during_after = which_client(&seen);
@@ -83,6 +84,9 @@ pub fn replay(_sc: &Value) -> Value {
     let _ = t1.join();
     let after = which_client(&seen);
     let log = format!("window: get before 2nd set = {:?}, after 2nd set = {:?}, is_set = {}; after the first set completed: {:?}", during_before, during_after, is_set_during, after);
+    if is_set_before {
+        viol.push(json!({"prop": "C18", "clause": "read-after-init", "detail": format!("is_set() reported true while the only set was still inside its initialisation window (get() = {:?}): {}", during_before, log)}));
+    }
     if during_before.is_some() {
         viol.push(json!({"prop": "C18", "clause": "read-after-init", "detail": format!("a get during the initialisation window returned a client: {}", log)}));
     }
